@@ -302,6 +302,12 @@ def set_tags(
   clear_tags(buildable, argument)
   for tag in tags:
     add_tag(buildable, argument, tag)
+  if isinstance(argument, int):
+    # Use the canonical storage key (the name, for positional-or-keyword
+    # parameters), like `add_tag` and `clear_tags` do.
+    argument = buildable.__signature_info__.index_to_key(
+        argument, buildable.__arguments__
+    )
   buildable.__argument_history__.add_updated_tags(
       argument, buildable.__argument_tags__[argument]
   )
